@@ -2,7 +2,7 @@ import CaoProofs.Lemmas.WfUnit
 /-!
 # From the invariant to the checker's view of operands (C10)
 -/
-namespace Cao.Compiler
+namespace Cao.Compiler.Wf
 open Cao Cao.Bytecode
 
 /-! ## byte arrays and strings -/
@@ -147,4 +147,4 @@ theorem dupH_false_of_pairwise : âˆ€ (l : List UInt32), l.Pairwise (Â· â‰  Â·) â
       have := List.contains_iff_mem.1 hc
       exact absurd rfl (h.1 x this)
 
-end Cao.Compiler
+end Cao.Compiler.Wf
